@@ -9,7 +9,7 @@ import struct
 
 from hypothesis import strategies as st
 
-from vf.core import CaseFailed, HarnessError, HypPart, Oracle, SkipCase, VERIF_DIR, spsdk_frame
+from vf.core import CaseFailed, EnumPart, HarnessError, HypPart, Oracle, SkipCase, VERIF_DIR, spsdk_frame
 from vf.gen import dbenum
 from vf.gen import keys as K
 from vf.ref import ahab_check as A
@@ -46,7 +46,8 @@ ASSUMPTIONS = [
     "PQC (Dilithium/ML-DSA) and SM2 keys, NXP SRK set, dummy signatures (unsigned placeholders), template images (spl, atf, ...) are out of scope",
 ]
 FLOORS = {"exported": 0.5, "srk:oem": 0.3, "containers>=2": 0.2, "images>=2": 0.3, "encrypted": 0.06, "explicit_offset": 0.1,
-          "refused": 0.03, "rsa": 0.08, "ver:2": 0.05, "tamper:signed": 0.25, "tamper:image": 0.25}
+          "refused": 0.03, "problem:image_overlap": 0.008, "problem:container_overflow": 0.008, "rsa": 0.08, "ver:2": 0.05,
+          "certificate": 0.008, "tamper:signed": 0.25, "tamper:image": 0.25}
 
 FIX = os.path.join(VERIF_DIR, "fixtures", "c06")
 TARGETS = ["standard", "nand_2k", "nand_4k", "serial_downloader", "nor"]
@@ -809,6 +810,44 @@ def _tamper(case, tm: str, walked: list, data: bytes, deks: dict, o: Oracle) -> 
             o.fail("tamper", "unreported:%s:%s" % (group, name), "bit 0x%02x of byte 0x%x (%s of container %d) flipped: parse + verify() report no error" % (bit, pos, cls, w["index"]))
 
 
+# ------------------------------------------------------------------ every (device, revision, target memory, container version) once
+def _combos() -> list[tuple]:
+    out = []
+    for t in _tuples():
+        for tm in TARGETS[:4]:
+            for cver in ([None] if len(t["types"]) == 1 else sorted(t["types"])):
+                out.append((t, tm, cver))
+    return out
+
+
+def _combo_case(tier: str, i: int) -> dict:
+    t, tm, cver = _combos()[i]
+    cores = sorted(t["cores"])
+    core = cores[i % len(cores)]
+    itypes = sorted(t["itypes"][core]) or ["executable"]
+
+    def image(k: int, **kw) -> dict:
+        d = {"size": 300 + 517 * k + i, "seed": bytes([i & 0xFF, k, 6, 6]), "off": None, "load": 0x20480000 + 0x1000 * k, "entry": 0x20480000 + 0x1000 * k,
+             "ct": [core, itypes[(i + k) % len(itypes)]], "hash": ["sha256", "sha384", "sha512"][(i + k) % 3], "enc": False, "boot": k, "meta": [k, 0, 0],
+             "gap_after": 0, "size_align": None, "hash_given": True}
+        d.update(kw)
+        return d
+
+    keys = [{"t": "ec", "curve": "secp256r1", "d": [i + 11, i + 12, i + 13, i + 14]}, {"t": "ec", "curve": "secp384r1", "d": [i + 21, i + 22, i + 23, i + 24]},
+            {"t": "rsa", "bits": 2048, "i": [(i + j) % 8 for j in range(4)]}, {"t": "ec", "curve": "secp521r1", "d": [i + 31, i + 32, i + 33, i + 34]}][i % 4]
+    used = i % 4
+    signed = {"srk_set": "oem", "keys": keys, "used": used, "mask": (i * 5) & 0xF, "revoke_used": False, "fuse": i & 0xFF, "sw": (i * 257) & 0xFFFF, "gdet": None,
+              "check_all": None, "flag_ca": False, "srk_enc": "pub_pem", "sign_enc": "pem", "cert": None,
+              "blob": {"size": [128, 192, 256][i % 3], "dek": bytes(range(i, i + [16, 24, 32][i % 3])), "key_id": i, "keyblob": None},
+              "images": [image(0, enc=True), image(1)]}
+    first = {"srk_set": "none", "keys": keys, "used": 0, "mask": 0, "revoke_used": False, "fuse": 1, "sw": 2, "gdet": None, "check_all": None, "flag_ca": False,
+             "srk_enc": "pub_pem", "sign_enc": "pem", "cert": None, "blob": None, "images": [image(2)]}
+    return {"dev": t["dev"], "rev": t["rev"], "tm": tm, "cver": cver, "containers": [first, signed], "overflow": False, "tamper": [8 * (3 * (i * 7) + 1) + i % 8, i * 131 + 5, 8 * (3 * (i * 29 + 40)) + 3]}
+
+
 def parts(ctx):
     _STATE["work"] = ctx.work
-    return [HypPart("images", _cases(ctx.quick), run_case, {"quick": 640, "thorough": 20000})]
+    return [
+        EnumPart("db_tuples", lambda tier: len(_combos()), _combo_case, run_case),
+        HypPart("images", _cases(ctx.quick), run_case, {"quick": 640, "thorough": 20000}),
+    ]
